@@ -1,3 +1,19 @@
 """C20 - middleware routing and static files."""
-FUNCTIONS = ['static_files.get_static_file', 'middleware.WSGIApp.not_found']
-CLAIMED = False
+FUNCTIONS = ['static_files.get_static_file', 'middleware.WSGIApp.not_found',
+             'middleware.WSGIApp.__call__', 'middleware.WSGIApp.__init__']
+
+LEVEL_TEXT = ('WSGIApp.__call__ is verified against a routing contract over a ghost route log: the Engine.IO '
+              'server is called exactly when PATH_INFO starts with the normalised endpoint (and then nothing '
+              'else happens here); otherwise a static file is served (200, one Content-Type header, one file '
+              'opened) only through get_static_file, otherwise the wrapped application is called if there is '
+              'one, otherwise 404; get_static_file never serves a request path with a ".." segment, and the '
+              'served name is the mapped root followed by the unmatched suffix of the request path (loop '
+              'invariant path0 == path + extra_path)')
+LEVEL_NOTE = ('string-valued static mappings only (dict-valued entries with explicit content types are not '
+              'modelled); os.path.exists / open are library contracts; "beneath the mapped directory" = no ".." '
+              'segment in the appended suffix, which follows from the two proved clauses plus the str.split '
+              'contract (segments of a suffix are segments of the path) - that last step is assumed; ASGIApp '
+              '(routing, lifespan) is not yet under contract; the gunicorn socket adapter lines are an '
+              'abstract region')
+NOT_DECIDED = ['ASGIApp routing and lifespan', 'dict-valued static file entries', 'symlinks / percent-encoded segments (the gateway decodes)']
+ASSUMPTIONS = [LEVEL_NOTE]
